@@ -194,7 +194,9 @@ def C10(ck):
                "and by decoding JSON / CBOR (incl. no-measurement profile-1 tokens, 48/64-byte hashes, all optional component fields): "
                "the output of EncodeClaimsToCBOR / ValidateAndEncodeClaimsToCBOR is parsed by the independent reader and judged against "
                "PsaWire!WireFormatOK (single definite map, no duplicates, exactly the keys of the claims that are set, type and exact "
-               "value per key, bare nonce, never list + flag, nothing after the map); the payload of ValidateAndSign is covered by C03; "
+               "value per key, bare nonce, never list + flag, nothing after the map); the payload of Sign / ValidateAndSign inside "
+               "TLC-simulated Evidence histories (claims changed in place or replaced between attach and sign) must be the encoding "
+               "of the claims-set attached at that moment (Trace_Evidence!SignF; fresh single sign is covered by C03); "
                "non-trivial = every valid set (distinct abstract object)")
     ck.assumptions = TRUST + ["the independent CBOR reader harness/cborx"]
     _wire_model(ck)
@@ -210,6 +212,8 @@ def C10(ck):
                           "-out", ck.path("wd"), "rtonly"] + (["nopairs"] if ck.tier == "quick" else []), "Trace_Wire", par=12, xmx="3g")
     finally:
         _rm(valid, dom, wire)
+    # emitted CBOR that leaves inside a token: what is signed is the wire form of the claims-set as it is when signing
+    _ev_hist(ck, 200 if ck.tier == "quick" else 3000)
 
 
 def C12(ck):
@@ -257,7 +261,7 @@ def _reg_hist(ck, n):
             ops |= set(v.get("ops", []))
             ok += v.get("regOK", 0)
             fail += v.get("regFail", 0)
-        if not {"Register", "NewClaims", "Mutate", "DecodeJSON", "DecodeCBOR"} <= ops or ok == 0 or fail == 0:
+        if not {"Register", "NewClaims", "Mutate", "DecodeJSON", "DecodeCBOR", "DecodeCOSE"} <= ops or ok == 0 or fail == 0:
             raise Machinery("register histories lack operations / outcomes: %s ok=%d fail=%d" % (sorted(ops), ok, fail))
         ck.extra.update(histories=nh, register_ok=ok, register_failed=fail)
     finally:
